@@ -225,7 +225,7 @@ def gen_datagrams(ctx, im: c01.Impl):
     for t in rng.sample(im.tmsgs, ctx.pick(10, 80)):
         m = g.message(t, big_ok=False, counts=1)
         b = im.serialize(m)
-        if isinstance(b, str) or len(b) > 400:
+        if isinstance(b, str) or len(b) > 220:
             continue
         for cut in range(len(b) + 1):
             yield "cut", b[:cut]
